@@ -643,6 +643,9 @@ func TestVerifC06(t *testing.T) {
 		if g.r.Chance(0.15) { // frame-level corruption
 			p2, _ = g.mutate(p2)
 			g.stats.Inc("frames.mutated")
+		} else if g.r.Chance(0.05) {
+			p2 = append(p2, []byte{0x1c, 0x1d, 0x02}[g.r.Intn(3)], 0, 0)
+			g.stats.Inc("frames.close_or_unknown")
 		}
 		var cur []*quicutils.CryptoFrameOffset
 		step := func(p []byte) {
@@ -781,7 +784,7 @@ func TestVerifC06(t *testing.T) {
 		} else if c06Field(out, "intact") != "1" {
 			violation("datagrams kept by the packet sniffer differ from what was appended: %.300s", out)
 		}
-		if !corrupt && version != 0xff00001d {
+		if !corrupt && version != 0xff00001d && !qc.hasClose {
 			// every CRYPTO byte has arrived: the last answer must be the carried name
 			steps := strings.Fields(strings.SplitN(out, " # ", 2)[0])
 			last := strings.SplitN(steps[len(steps)-2], "/", 2)[0]
